@@ -36,6 +36,9 @@ def trees() -> Dict[str, TCls]:
         'or (or %default unit nat) string': t('or', t('or', u(), n(), f='default'), s()),
         'or (unit %root) (nat %b)': t('or', u(f='root'), n(f='b')),
         'or (or (unit %a) (nat %default)) (string %c)': t('or', t('or', u(f='a'), n(f='default')), s(f='c')),
+        # the empty annotation `%` is legal Michelson and means "no annotation" (pytezos parses it to the field name '')
+        'or (unit %) (nat %b)': t('or', u(f=''), n(f='b')),
+        'or (or % (unit %a) nat) (string %)': t('or', t('or', u(f='a'), n(), f=''), s(f='')),
     }
 
 
